@@ -1,11 +1,26 @@
 //@inject src/fmt/temporal/parser.rs
-//! C09: civil Date / Time text round trip on the real Temporal printer and parser.
-//! Injected into parser.rs (private parse_* pieces reachable); the printer's `pub(super)` methods are
-//! visible from here as well (descendant of fmt::temporal).
+//! C09: civil Date / Time / DateTime text round trip on the real Temporal printer and parser.
+//! Injected into parser.rs (private parse_* stages reachable); the printer's `pub(super)` methods are visible from
+//! here as well (descendant of fmt::temporal).
 //!
 //! Reference semantics (`ref_*` below) are written digit by digit from RFC 3339 section 5.6 / ISO 8601
 //! (`date-fullyear "-" date-month "-" date-mday`, `time-hour ":" time-minute ":" time-second [ "." 1*DIGIT ]`)
 //! plus the ISO 8601 / ECMA-262 expanded year (sign and six digits), with no call into jiff.
+//!
+//! Structure (all full-domain, nothing bounded):
+//!   printer        c09_print_date, c09_print_time                      decode . print = id
+//!   parser stages  c09_parse_date_spec (all strings <= 32 bytes), c09_parse_time_spec (all strings <= 18 bytes)
+//!                                                                    real stage = reference prefix reader (CONTRACTS)
+//!   public parser  c09_parse_date_10 / _13 (all real code), c09_parse_time (glue + contracts)
+//!                                                                    parse = decode on the printer's shapes
+//!   round trips    c09_roundtrip_date (all real code), c09_roundtrip_time, c09_roundtrip_datetime (glue + contracts)
+//!                                                                    parse(print(x)) = Ok(x)
+//! Two kinds of stubs, neither adds a trusted assumption:
+//!   * self-checking "unreachable_*" stubs assert!(false) when called: a passing harness PROVES that the stage is never
+//!     reached for its inputs.  Needed because CBMC's symbolic execution cannot see that the unparsed rest is empty and
+//!     otherwise unrolls the time / offset / RFC 9557 annotation parsers (> 20 min of symbolic execution, measured).
+//!   * contract stubs (date_spec_contract, time_spec_contract, datetime_attempt_fails) ARE the statement proved about the
+//!     real function by another harness of this group, and they assert that contract's precondition (input length / shape).
 use super::*;
 use crate::fmt::temporal::printer::DateTimePrinter;
 use crate::verif_kani::spec::*;
@@ -108,7 +123,7 @@ fn mk_time(h: i8, m: i8, s: i8, ns: i32) -> Time {
 //@prop C09
 //@tier quick
 //@timeout 900
-//@doc for EVERY civil date (-9999-01-01..=9999-12-31): the printed text is `YYYY-MM-DD` (10 bytes) for year >= 0 and `-YYYYYY-MM-DD` (13 bytes, ISO 8601 expanded year) for year < 0, and the independent reference reader decodes it to exactly (year, month, day)  [decode . print = id on Date]
+//@doc for EVERY civil date (-9999-01-01..=9999-12-31): the printed text is `YYYY-MM-DD` (10 bytes) for year >= 0 and `-YYYYYY-MM-DD` (13 bytes, ISO 8601 expanded year) for year < 0, and the independent reference reader decodes it to exactly (year, month, day)  [decode . print = id on Date].  NB the negative-year text (e.g. `-000001-01-01`) is ISO 8601 expanded / RFC 9557-Temporal syntax, NOT RFC 3339 (whose date-fullyear is 4DIGIT)
 #[kani::proof]
 #[kani::unwind(9)]
 #[kani::solver(kissat)]
@@ -175,7 +190,7 @@ fn ref_date_prefix(b: &[u8]) -> Option<(i64, i64, i64, usize)> {
 }
 //@harness c09_parse_date_spec
 //@target fmt::temporal::parser::DateTimeParser::{parse_date_spec,parse_year,parse_year_sign,parse_month,parse_day,parse_date_separator} + util::parse::{i64,split,slicer} + civil::Date::new_ranged (src/fmt/temporal/parser.rs)
-//@prop C09
+//@prop C09 C17
 //@tier thorough
 //@timeout 1500
 //@doc for EVERY byte string of length 0..=32 (32 = the printer's longest datetime): parse_date_spec returns Ok exactly when the reference prefix reader finds a Gregorian date (extended or basic form; 4-digit year or sign + 6 digits within -9999..=9999, "-000000" rejected), with exactly that (year, month, day) and exactly the reference's unconsumed rest; everything else is Err, never a panic.  This is the contract used as a stub (date_spec_contract) by c09_roundtrip_datetime
@@ -243,9 +258,9 @@ fn check_parse_date<const N: usize>(b: &[u8; N]) {
 
 //@harness c09_parse_date_10
 //@target fmt::temporal::DateTimeParser::parse_date (= <civil::Date as FromStr>::from_str) -> parser::DateTimeParser::parse_temporal_datetime -> parse_date_spec -> Parsed::into_full -> ParsedDateTime::to_date (src/fmt/temporal/mod.rs, parser.rs)
-//@prop C09
-//@tier quick
-//@timeout 900
+//@prop C09 C17
+//@tier thorough
+//@timeout 1500
 //@doc for EVERY 10-byte string of the printer's positive-year shape `????-??-??` (both '-' in place, the other 8 bytes arbitrary): the public date parser returns Ok(d) exactly when the independent reference reader (the same one that decodes the printer's output) finds a Gregorian date, and d has exactly those fields; everything else is Err, never a panic  [parse = decode].  Composition with c09_print_date: print emits this shape and decode(print(d)) = d, hence parse(print(d)) = Ok(d) for every Date with year >= 0.
 #[kani::proof]
 #[kani::stub(DateTimeParser::parse_time_spec, unreachable_time_spec)]
@@ -261,9 +276,9 @@ fn c09_parse_date_10() {
 
 //@harness c09_parse_date_13
 //@target fmt::temporal::DateTimeParser::parse_date (= <civil::Date as FromStr>::from_str) -> parser::DateTimeParser::parse_temporal_datetime -> parse_date_spec/parse_year (signed six-digit year) -> Parsed::into_full -> ParsedDateTime::to_date (src/fmt/temporal/mod.rs, parser.rs)
-//@prop C09
-//@tier quick
-//@timeout 900
+//@prop C09 C17
+//@tier thorough
+//@timeout 1500
 //@doc for EVERY 13-byte string of the printer's negative-year shape `s??????-??-??` (s = '-' as printed, or '+'; both '-' separators in place, the other 10 bytes arbitrary): the public date parser returns Ok(d) exactly when the reference reader finds a Gregorian date with year in -9999..=9999 ("-000000" is Err), and d has exactly those fields  [parse = decode].  Composition with c09_print_date: parse(print(d)) = Ok(d) for every Date with year < 0.
 #[kani::proof]
 #[kani::stub(DateTimeParser::parse_time_spec, unreachable_time_spec)]
@@ -321,7 +336,7 @@ fn hmsn(t: Time) -> (i64, i64, i64, i64) {
 
 //@harness c09_parse_time_spec
 //@target fmt::temporal::parser::DateTimeParser::{parse_time_spec,parse_hour,parse_minute,parse_second,parse_time_separator} + fmt::util::parse_temporal_fraction + util::parse::{i64,fraction,split,slicer} (src/fmt/temporal/parser.rs, src/fmt/util.rs, src/util/parse.rs)
-//@prop C09
+//@prop C09 C17
 //@tier thorough
 //@timeout 1500
 //@doc for EVERY byte string of length 0..=18 (18 = the printer's longest time `HH:MM:SS.fffffffff`): parse_time_spec returns Ok exactly when the reference prefix reader finds a time of day (extended or basic form, optional minute/second, '.' or ',' fraction of 1..=9 digits), with exactly that hour, minute, nanosecond and unconsumed rest, second = min(raw second, 59) (a leap second `60` is clamped to 59), `extended` = (third byte is ':'); everything else is Err, never a panic.  This is the contract used as a stub (time_spec_contract) by c09_parse_time
@@ -381,7 +396,7 @@ fn unreachable_annotation_parser<'i>(_p: &rfc9557::Parser, _input: &'i [u8]) -> 
 
 //@harness c09_time_shape_is_not_a_datetime
 //@target fmt::temporal::parser::DateTimeParser::parse_temporal_datetime -> parse_date_spec -> parse_year (src/fmt/temporal/parser.rs)
-//@prop C09
+//@prop C09 C17
 //@tier quick
 //@timeout 900
 //@doc LEMMA for c09_parse_time: for EVERY byte string of length 3..=18 whose third byte is ':' (every time the printer emits), parse_temporal_datetime returns Err (the year needs 4 or sign+6 digits); the time/offset/annotation stages are proved unreachable (self-checking stubs).  This is the contract of the `datetime_attempt_fails` stub.
@@ -407,9 +422,9 @@ fn datetime_attempt_fails<'i>(_p: &DateTimeParser, input: &'i [u8]) -> Result<Pa
 
 //@harness c09_parse_time
 //@target fmt::temporal::DateTimeParser::parse_time (= <civil::Time as FromStr>::from_str) -> parser::DateTimeParser::parse_temporal_time (glue) -> {parse_offset, parse_annotations} -> Parsed::into_full (src/fmt/temporal/mod.rs, parser.rs)
-//@prop C09
-//@tier thorough
-//@timeout 1500
+//@prop C09 C17
+//@tier quick
+//@timeout 900
 //@doc for EVERY string of the printer's time shape -- length 8 `??:??:??` or 10..=18 `??:??:??.d+` with both ':' and the '.' in place, the six H/M/S bytes arbitrary, the 1..=9 fraction bytes ASCII digits: the public time parser returns Ok(t) exactly when the independent RFC 3339 reference reader (the one that decodes the printer's output) finds hour <= 23, minute <= 59, second <= 60, and t has exactly those fields with second = min(second, 59); everything else is Err, never a panic  [parse = decode on the printer's image, where second <= 59].  The offset and RFC 9557 annotation parsers and the basic-format ambiguity checks (parse_month_day, parse_year_month) are proved unreachable for these inputs (self-checking stubs); two callees are replaced by their PROVED contracts, with the contract's precondition asserted in the stub: parse_time_spec by c09_parse_time_spec (all inputs <= 18 bytes) and the failed "is it a full datetime?" attempt by lemma c09_time_shape_is_not_a_datetime.  Composition with c09_print_time: print emits this shape and decode(print(t)) = t, hence parse(print(t)) = Ok(t) for every Time.
 #[kani::proof]
 #[kani::stub(DateTimeParser::parse_temporal_datetime, datetime_attempt_fails)]
